@@ -123,6 +123,10 @@ def build_layer(idx: int, spec: List[Tuple[str, List[int]]], r: random.Random, n
                 ng["params"].append(p_value("nrc", "u8"))
             ngs.append(ng)
             neg_names.append(ng["name"])
+        if sid is not None and not neg_names and ngs and r.random() < 0.35:
+            # a negative response object shared with an earlier service (its request echo then
+            # depends on which service it is used for)
+            neg_names.append(r.choice(ngs)["name"])
         services.append({"name": f"svc{k}", "request": rq["name"], "pos": pos_names, "neg": neg_names})
     gneg = []
     for g in range(n_gnr):
@@ -210,8 +214,14 @@ def judge(col: common.Collector, ll: codecrun.LoadedLayer, model: Dict[str, Any]
             if c in ("MUST", "MAY"):
                 may.add(s["name"])
         for g in model["gneg"]:
-            # when a global negative response is "applicable" to a service is not defined by
-            # the statement beyond decoding: attribution through it is MAY
+            # a global negative response applies to a service when M matches it with the echo of
+            # the service's (constant) request prefix: then the service has to be reported -
+            # through the GNR or through an object of its own.  Any looser match is MAY.
+            c, _ = classify(ll, g, M, rq_prefix, len(rq_prefix))
+            if c == "MUST" and not only_may:
+                must.add(s["name"])
+                may.add(s["name"])
+                continue
             c, _ = classify(ll, g, M, None)
             if c in ("MUST", "MAY"):
                 may.add(s["name"])
